@@ -140,7 +140,6 @@ func upgrade(run *ev.Run, scratch string) {
 		run.Violate("upgrade;witness_does_not_start_on_the_pinned_builds_database", "the tree under test cannot open a database written by the pinned build: "+err.Error(), -1, nil)
 		return
 	}
-	defer db.Close()
 	for i, l := range logs {
 		id := refnote.LogID(l.Origin)
 		want, _ := base64.StdEncoding.DecodeString(stored[i].Stored)
@@ -164,4 +163,39 @@ func upgrade(run *ev.Run, scratch string) {
 		}
 	}
 	run.Distinct("nontrivial", "upgrade/baseline-db")
+	// two more lives on the upgraded file: whatever start-up does to a database of the pinned build (a
+	// migration, an import) must be done once - the progress made since must survive every later start
+	for life := 2; life <= 3; life++ {
+		db.Close()
+		w, db, err = fixtureWitness(dbPath, logs, keys, signers)
+		if err != nil {
+			run.Violate("upgrade;witness_does_not_restart_on_the_upgraded_database", err.Error(), -1, nil)
+			return
+		}
+		for i, l := range logs {
+			id := refnote.LogID(l.Origin)
+			cur := l.Size + 4*uint64(life-1)
+			run.Count("evaluations")
+			run.Count("upgrade_restart_reads")
+			got, gerr := w.GetCheckpoint(id)
+			var size uint64 = ^uint64(0)
+			if n, perr := refnote.Parse(got); perr == nil {
+				if cp, perr := refnote.ParseCheckpoint(n.Text); perr == nil {
+					size = cp.Size
+				}
+			}
+			if gerr != nil || size != cur {
+				run.Violate("upgrade;progress_lost_across_restart", fmt.Sprintf("life %d on a database first written by the pinned build: %q had been advanced to size %d in the previous life; after the restart the witness holds err=%v size=%d", life, l.Origin, cur, gerr, size), int64(i), map[string]any{"got": string(got)})
+				continue
+			}
+			if _, err := w.Update(context.Background(), id, l.Size, cpOf(l.Origin, keys[i], forks[i], l.Size+3), forks[i].Consistency(l.Size, l.Size+3)); err == nil {
+				run.Violate("upgrade;fork_from_the_pinned_builds_size_accepted_after_restart", fmt.Sprintf("life %d: a fork of %q starting at the size the pinned build had left (%d) was accepted although the witness had advanced to %d", life, l.Origin, l.Size, cur), int64(i), nil)
+				continue
+			}
+			if _, err := w.Update(context.Background(), id, cur, cpOf(l.Origin, keys[i], trees[i], cur+4), trees[i].Consistency(cur, cur+4)); err != nil {
+				run.Violate("upgrade;honest_step_refused", fmt.Sprintf("life %d: honest step %d->%d of %q refused: %v", life, cur, cur+4, l.Origin, err), int64(i), nil)
+			}
+		}
+	}
+	db.Close()
 }
